@@ -223,11 +223,13 @@ class FrameQueueFrag(FrameQueue):
             if (
                 self._frags.header.from_node is not None  # if not just initialized
                 and frame.header.to_node == self._frags.header.to_node
+                and frame.header.from_node == self._frags.header.from_node
                 and frame.header.frame_id == self._frags.header.frame_id
             ):
                 if (
                     self._frags.header.reserved - 1 != frame.header.reserved
-                    and frame.header.message_type != MSG_FRAG_LAST
+                    if frame.header.message_type != MSG_FRAG_LAST
+                    else self._frags.header.reserved > 2
                 ):
                     # print("dropping non sequential fragment")
                     return False
@@ -238,7 +240,9 @@ class FrameQueueFrag(FrameQueue):
                         # External data needs to be propagated back to update()
                         frame.header.message_type = NETWORK_EXT_DATA  # by reference
                     self._frags.header.message_type = frame.header.reserved
-                    return super().enqueue(self._frags)
+                    result = super().enqueue(self._frags)
+                    self._frags = RF24NetworkFrame()  # invalidate the cache
+                    return result
                 return True
             # print("dropping fragment due to missing 1st fragment")
             return False
